@@ -7,15 +7,15 @@ import "golang.org/x/tools/go/ssa"
 func init() {
 	ioPkgs := []string{"io/seqio/fasta", "io/seqio/fastq", "io/featio/bed", "io/featio/gff"}
 	for _, id := range []string{"C01", "C02"} {
-		addRule(id, "constformat", 10, func(c *Ctx, r string) { ruleConstFormat(c, r, ioPkgs...) })
-		addRule(id, "liveconfig", 8, func(c *Ctx, r string) { ruleLiveConfig(c, r, ioPkgs...) })
+		addRule(id, "constformat", 3, func(c *Ctx, r string) { ruleConstFormat(c, r, ioPkgs...) })
+		addRule(id, "liveconfig", 2, func(c *Ctx, r string) { ruleLiveConfig(c, r, ioPkgs...) })
 	}
-	addRule("C03", "lineio/fragments", 10, func(c *Ctx, r string) { ruleFragments(c, r, "io/seqio/fasta", "io/seqio/fastq") })
-	addRule("C05", "strictconverge", 4, func(c *Ctx, r string) { ruleStrictConverge(c, r, "seq/linear", "seq/alignment") })
+	addRule("C03", "lineio/fragments", 3, func(c *Ctx, r string) { ruleFragments(c, r, "io/seqio/fasta", "io/seqio/fastq") })
+	addRule("C05", "strictconverge", 2, func(c *Ctx, r string) { ruleStrictConverge(c, r, "seq/linear", "seq/alignment") })
 	for _, id := range []string{"C05", "C07"} {
 		addRule(id, "posindex", 0, func(c *Ctx, r string) { rulePosIndex(c, r, "seq/linear", "seq/alignment") })
 	}
-	addRule("C06", "appendfresh", 4, ruleAppendFresh)
+	addRule("C06", "appendfresh", 2, ruleAppendFresh)
 	addRule("C06", "commitown", 3, func(c *Ctx, r string) { ruleCommitOwn(c, r, "Truncate", "Stitch", "Compose") })
 	addRule("C07", "flagloop", 0, ruleFlagLoop)
 	addRule("C07", "stepalways", 1, func(c *Ctx, r string) {
@@ -31,20 +31,20 @@ func init() {
 	all := []string{"NW", "NWAffine", "SW", "SWAffine", "Fitted", "FittedAffine"}
 	for _, id := range []string{"C08", "C09"} {
 		addRule(id, "tiekeeps", 0, func(c *Ctx, r string) { ruleTieKeeps(c, r, aligners(c, all...)) })
-		addRule(id, "foldinit", 4, func(c *Ctx, r string) {
+		addRule(id, "foldinit", 2, func(c *Ctx, r string) {
 			ruleFoldInit(c, r, [][2]string{{"align", "Fitted.alignLetters"}, {"align", "Fitted.alignQLetters"}, {"align", "FittedAffine.alignLetters"}, {"align", "FittedAffine.alignQLetters"}})
 		})
 	}
-	addRule("C09", "scorezero", 12, func(c *Ctx, r string) { ruleScoreZero(c, r, aligners(c, all...)) })
+	addRule("C09", "scorezero", 4, func(c *Ctx, r string) { ruleScoreZero(c, r, aligners(c, all...)) })
 	addRule("C10", "checkperkmer", 1, ruleCheckPerKmer)
 	addRule("C10", "allkmers", 2, ruleAllKmers)
 	addRule("C13", "cleanupremoves", 1, ruleCleanUpRemoves)
 	addRule("C14", "scanalways", 1, ruleScanAlways)
 	addRule("C16", "treefrommap", 1, ruleTreeFromMap)
 	addRule("C16", "imagelocated", 1, ruleImageLocated)
-	addRule("C17", "getterpure", 10, ruleGetterPure)
+	addRule("C17", "getterpure", 3, ruleGetterPure)
 	addRule("C17", "argreadonly", 1, ruleArgReadOnly)
-	addRule("C18", "arrayrange", 4, func(c *Ctx, r string) { ruleArrayRange(c, r, "alphabet", "seq/quality") })
+	addRule("C18", "arrayrange", 2, func(c *Ctx, r string) { ruleArrayRange(c, r, "alphabet", "seq/quality") })
 	addRule("C19", "recoverdelivers", 0, ruleRecoverDelivers)
 	addRule("C19", "setflagused", 1, ruleSetFlagUsed)
 	addRule("C20", "exonsfrombuilder", 2, ruleExonsFromBuilder)
